@@ -241,3 +241,51 @@ func H_C04_Shapes() {
 		jm{"documentDescribes", part("describes", jGet(base, "documentDescribes"))})
 	c04parse(doc, "", "C04.shapes.spdx")
 }
+
+func countStrings(j *rt.J) int {
+	if j.Kind == 3 {
+		return 1
+	}
+	n := 0
+	for _, it := range j.Items {
+		n += countStrings(it)
+	}
+	return n
+}
+
+// withSymbolicLeaf returns a copy of j whose target-th string leaf (pre-order) is the string s.
+func withSymbolicLeaf(j *rt.J, target int, s string, ctr *int) *rt.J {
+	if j.Kind == 3 {
+		me := *ctr
+		*ctr++
+		if me == target {
+			return jStr(s)
+		}
+		return j
+	}
+	if len(j.Items) == 0 {
+		return j
+	}
+	out := &rt.J{Kind: j.Kind, N: j.N, B: j.B, Keys: j.Keys}
+	for _, it := range j.Items {
+		out.Items = append(out.Items, withSymbolicLeaf(it, target, s, ctr))
+	}
+	return out
+}
+
+// H_C04_Strings: one string value of the reference documents at a time is an unconstrained symbolic string (identifiers,
+// enum names, dates, actor strings, locators, versions): whatever its content, the reader returns a document or an error.
+func H_C04_Strings() {
+	var doc *rt.J
+	site := "C04.strings.cdx"
+	if rt.NondetChoice("format", 2) == 0 {
+		doc = cdxDoc("1.5")
+	} else {
+		doc = spdxDoc()
+		site = "C04.strings.spdx"
+	}
+	k := rt.NondetChoice("leaf", countStrings(doc))
+	ctr := 0
+	doc = withSymbolicLeaf(doc, k, rt.NondetString("text"), &ctr)
+	c04parse(doc, "", site)
+}
